@@ -125,10 +125,10 @@ Section Proofs.
     remove_trigger ph id s = Some s1 -> exists l, out s1 = l ++ out s /\ norun l.
   Proof.
     unfold remove_trigger, remove_base. intros H.
-    assert (G : forall s', (if mem id (get ph s) then Some (put ph (remove_first id (get ph s)) s) else None) = Some s' ->
+    assert (G : forall s', (if mem id (get ph s) then Some (emit (ERemoved ph id) (put ph (remove_first id (get ph s)) s)) else None) = Some s' ->
                            exists l, out s' = l ++ out s /\ norun l).
-    { intros s' X. destruct (mem id (get ph s)); inversion X; subst. exists []. rewrite put_out.
-      split; [reflexivity | intros ? ? ? []]. }
+    { intros s' X. destruct (mem id (get ph s)); inversion X; subst. exists [ERemoved ph id]. cbn. rewrite put_out.
+      split; [reflexivity | intros ? ? ? [Y | []]; discriminate]. }
     destruct ph; try (apply G; exact H).
     destruct (inbefore s); [|apply G; exact H].
     destruct (mem id (finished s)); [|apply G; exact H].
@@ -141,8 +141,8 @@ Section Proofs.
     exists l, out (step bodies fuel s o) = l ++ out s /\ norun l /\ waiting (step bodies fuel s o) <> [].
   Proof.
     intros Hw Hj. unfold step. destruct o as [ph id | ph id | | j].
-    - exists [EOp]. unfold add_trigger. rewrite put_out. split; [reflexivity|].
-      split; [intros ? ? ? [X | []]; discriminate | destruct ph; exact Hw].
+    - exists [EAdded ph id; EOp]. unfold add_trigger. cbn [out emit]. rewrite put_out. split; [reflexivity|].
+      split; [intros ? ? ? [X | [X | []]]; discriminate | destruct ph; exact Hw].
     - destruct (remove_trigger ph id (emit EOp s)) as [s1|] eqn:E.
       + destruct (remove_trigger_norun _ _ _ _ E) as (l & El & Hl). exists (l ++ [EOp]). rewrite El, <- app_assoc.
         split; [reflexivity|]. split.
